@@ -40,9 +40,9 @@ Definition bytes_ok (l : bytes) : Prop := Forall (fun b => b < 256) l.
 
 Definition wf_action (ncols : N) (a : action) : Prop :=
   match a with
-  | AIndex t i m es => t < 65536 /\ t / 256 < ncols /\ i < 2 ^ (t mod 256) /\ i < 2 ^ 64 /\ m < 2 ^ 64 /\
+  | AIndex t i m es => t < 65536 /\ t / 256 < ncols /\ i < 2 ^ (t mod 256) * index_validate_chunk_factor /\ i < 2 ^ 64 /\ m < 2 ^ 64 /\
                        length es = (popcount 64 m * 8)%nat
-  | ARefc t i m es => t < 65536 /\ t / 256 < ncols /\ i < 2 ^ (t mod 256) /\ i < 2 ^ 64 /\ m < 2 ^ 64 /\
+  | ARefc t i m es => t < 65536 /\ t / 256 < ncols /\ i < 2 ^ (t mod 256) * refcount_validate_chunk_factor /\ i < 2 ^ 64 /\ m < 2 ^ 64 /\
                       length es = (popcount 64 m * 16)%nat
   | AValue t i p => t < 65536 /\ t / 256 < ncols /\ i < 2 ^ 64 /\
                     (if i =? 0 then length p = 16%nat
@@ -103,7 +103,7 @@ Proof.
     replace ((le 2 t ++ le 8 i ++ le 8 m ++ es) ++ rest) with ((le 2 t ++ le 8 i ++ le 8 m) ++ (es ++ rest)) by (rewrite <- !app_assoc; reflexivity).
     destruct (header18 t i m (es ++ rest) Ht Hi64 Hm) as [T [E1 [E2 E3]]]. rewrite T, E1, E2, E3.
     destruct (N.leb_spec ncols (t / 256)); [lia|]. cbn [andb].
-    destruct (N.leb_spec (2 ^ (t mod 256)) i); [lia|].
+    destruct (N.leb_spec (2 ^ (t mod 256) * index_validate_chunk_factor) i); [lia|].
     replace (log_insert_index =? log_insert_ref_count) with false by reflexivity. cbn [andb].
     rewrite take_app by exact Hl. reflexivity.
   - destruct W as [Ht [Hc [Hi64 Hp]]].
@@ -129,7 +129,7 @@ Proof.
     replace ((le 2 t ++ le 8 i ++ le 8 m ++ es) ++ rest) with ((le 2 t ++ le 8 i ++ le 8 m) ++ (es ++ rest)) by (rewrite <- !app_assoc; reflexivity).
     destruct (header18 t i m (es ++ rest) Ht Hi64 Hm) as [T [E1 [E2 E3]]]. rewrite T, E1, E2, E3.
     destruct (N.leb_spec ncols (t / 256)); [lia|]. cbn [andb].
-    destruct (N.leb_spec (2 ^ (t mod 256)) i); [lia|]. cbn [andb].
+    destruct (N.leb_spec (2 ^ (t mod 256) * refcount_validate_chunk_factor) i); [lia|]. cbn [andb].
     rewrite take_app by exact Hl. reflexivity.
   - cbn [app parse_action].
     replace (log_drop_table =? log_end_record) with false by reflexivity.
